@@ -14,7 +14,10 @@ def run(name):
     res = {}
     try:
         subprocess.run(["git","-C","/repo","worktree","add","-q","--detach",wt,"HEAD"],check=True)
-        subprocess.run(["git","-C",wt,"apply","/verif/seeded/%s/patch.diff" % name],check=True)
+        ap = subprocess.run(["git","-C",wt,"apply","/verif/seeded/%s/patch.diff" % name])
+        if ap.returncode != 0:
+            # the patch no longer applies (a later fix: commit rewrote the same lines)
+            return name, prop, {"patch-no-longer-applies": (9, 0, "")}
         for pr in GROUP[prop]:
             out = "/tmp/scr/out-%s-%s" % (os.path.basename(wt), pr)
             e = dict(ENV, VERIF_REPO=wt, VERIF_OUT=out)
@@ -34,6 +37,8 @@ def run(name):
     return name, prop, res
 names = sorted(os.listdir("/verif/seeded"))
 names = [n for n in names if os.path.isdir("/verif/seeded/"+n) and (len(sys.argv)<2 or sys.argv[1] in n)]
+if os.environ.get("MATRIX_FROM"):
+    names = [n for n in names if n >= os.environ["MATRIX_FROM"]]
 os.makedirs("/tmp/scr", exist_ok=True)
 rows=[]
 with cf.ThreadPoolExecutor(max_workers=3) as ex:
